@@ -9,6 +9,13 @@ SPECIES = {1: 'GAMMA', 2: 'POSITRON', 3: 'ELECTRON', 47: 'ALPHA'}
 TIME_PARAMS = ('tclev', 'thlev', 'tcnuc', 'thnuc')
 
 
+# positions (after prng/event) of (binding energy, coefficient) per shell and of the pair coefficient
+TRANS = {'nucltransk': [('K-conversion', 1, 2), ('pair', None, 3)],
+         'nucltranskl': [('K-conversion', 1, 2), ('L-conversion', 3, 4), ('pair', None, 5)],
+         'nucltransklm': [('K-conversion', 1, 2), ('L-conversion', 3, 4), ('M-conversion', 5, 6), ('pair', None, 7)],
+         'nucltransklm_pb': [('K-conversion', 1, 2), ('L-conversion', 3, 4), ('M-conversion', 5, 6), ('pair', None, 7)]}
+
+
 def run(tier, seed):
     rep = Report('C04')
     ctx = tvcheck.Context()
@@ -20,6 +27,8 @@ def run(tier, seed):
              'assignments are such')
     rep.rule('TIMES.chain', 'a daughter scheme is called with creation time 0 and its particles are shifted as a block by '
              'the parent decay time, from the index captured immediately before the daughter call')
+    rep.rule('ENERGY.transition', 'at every call of nucltransK/KL/KLM with constant arguments, a conversion coefficient is non-zero only if the '
+             'transition energy is at least the binding energy of that shell, and the pair coefficient only above 1.022 MeV')
     rep.rule('ENERGY.nonneg', 'every emission whose energy argument folds to a constant has energy >= 0')
     rep.rule('COUNT', 'per published name: minimum >= 1 and maximum <= 100 particles over all CFG paths (unit summaries '
              'composed through the dispatch)')
@@ -52,7 +61,7 @@ def run(tier, seed):
         pos = [i for i, p in enumerate(kept) if p in ('tclev', 'tcnuc')]
         if pos:
             timepos.setdefault((n, len(kept)), set()).update(pos)
-    nsp = ntm = nen = 0
+    nsp = ntm = nen = ntr = 0
     for k, (fn, g, side) in sorted(flows.items()):
         params = {side.var(p['name'])[1] for p in fn['params']}
         defs = {}
@@ -109,11 +118,28 @@ def run(tier, seed):
         for n in r.nodes:
             if n.kind == 'call' and n.stmt[1] in pathsum.EMIT:
                 a = n.stmt[2][pathsum.EMIT[n.stmt[1]][0]]
+                if n.stmt[1] in TRANS:
+                    args = n.stmt[2]
+                    if all(x[0] == 'num' for x in args[:len(TRANS[n.stmt[1]]) + 1]):
+                        ntr += 1
+                        eg = args[0][1]
+                        for (what, bi, ci) in TRANS[n.stmt[1]]:
+                            thr = args[bi][1] if bi is not None else Fraction(1022, 1000)
+                            if args[ci][1] > 0 and eg < thr:
+                                rep.add('ENERGY.transition', '%s:%s:%s' % (fn['name'], float(eg), what), where(fn, n.line),
+                                        '%s: %s coefficient %s > 0 for a %s MeV transition below the %s MeV threshold: the emitted '
+                                        'electron/pair would have negative kinetic energy (NaN momentum)' %
+                                        (fn['name'], what, float(args[ci][1]), float(eg), float(thr)), False)
                 if a[0] == 'num':
                     nen += 1
                     if a[1] < 0:
                         rep.add('ENERGY.nonneg', '%s:%s' % (fn['name'], ir.fmt_stmt(n.stmt)[:50]), where(fn, n.line),
                                 '%s: emitted energy %s MeV >= 0' % (fn['name'], float(a[1])), False)
+    rep.add('ENERGY.transition', 'all', 'bxdecay0/', '%d transition calls with constant arguments were examined (violations are listed per site): a shell (or pair) coefficient is non-zero only '
+            'when the transition energy exceeds that shell\'s binding energy (resp. 1.022 MeV)' % ntr,
+            True, nontrivial=False)
+    rep.analysed['transition calls with constant arguments'] = ntr
+    rep.floor('ENERGY.transition', ntr, 1500)
     rep.add('ENERGY.nonneg', 'all', 'bxdecay0/', '%d emission sites with a constant energy argument: all >= 0' % nen,
             not any(i.rule == 'ENERGY.nonneg' and not i.ok for i in rep.instances))
     rep.analysed['emission sites with constant energy'] = nen
